@@ -475,6 +475,8 @@ type vtWorld struct {
 	callers []*vtCaller
 	retSeq  int64
 	wg      sync.WaitGroup
+	holders atomic.Int64 // tokens held right now as the callers themselves see it
+	maxHeld atomic.Int64
 }
 
 func newWorld(st *stack, t0 time.Time) *vtWorld { return &vtWorld{t0: t0, st: st} }
@@ -516,7 +518,15 @@ func (w *vtWorld) start(c *vtCaller) {
 		c.Order = w.retSeq
 		w.mu.Unlock()
 		if ok && l != nil && c.HoldMs > 0 {
+			n := w.holders.Add(1)
+			for {
+				m := w.maxHeld.Load()
+				if n <= m || w.maxHeld.CompareAndSwap(m, n) {
+					break
+				}
+			}
 			time.Sleep(time.Duration(c.HoldMs) * time.Millisecond)
+			w.holders.Add(-1)
 			complete(l, c.Outcome)
 			w.mu.Lock()
 			c.Released = true
